@@ -123,6 +123,38 @@ func init() {
 		return "done"
 	}
 
+	// c15.seq <queryTemplate> <groups> <interim writes> <pre-existing outfile: none|-|hex> : one client run — the periodic
+	// reporter writes the (cumulative) result n times with finalResult=false, then the final report writes it once more;
+	// the same Query value and group set throughout, as in the client.  Returns the files afterwards.
+	ops["c15.seq"] = func(a []string) string {
+		dir, err := os.MkdirTemp(os.Getenv("VERIF_WORK"), "c15-")
+		if err != nil {
+			panic(err)
+		}
+		defer os.RemoveAll(dir)
+		out := filepath.Join(dir, "out.csv")
+		if a[3] != "none" {
+			if err := os.WriteFile(out, unhex(a[3]), 0o644); err != nil {
+				panic(err)
+			}
+		}
+		q, err := mapr.NewQuery(strings.ReplaceAll(string(unhex(a[0])), "@O", out))
+		if err != nil || q == nil {
+			return "query-error"
+		}
+		g := buildGroup(a[1])
+		for i := 0; i < atoi(a[2]); i++ {
+			if err := g.WriteResult(q, false); err != nil {
+				return "error " + err.Error()
+			}
+		}
+		if err := g.WriteResult(q, true); err != nil {
+			return "error " + err.Error()
+		}
+		return fmt.Sprintf("out=%s;tmp=%s;query=%s;qtmp=%s", fileState(out), fileState(out+".tmp"), fileState(out+".query"),
+			fileState(out+".query.tmp"))
+	}
+
 	// c15.write <queryTemplate> <groups> <final> <pre-existing outfile: none|hex> <kill: 0 or k>
 	// @O in the query is replaced by the outfile path.  Runs c15.raw in a child under strace;
 	// kill=k>0 delivers SIGKILL on entry of the k-th file operation (open/write/rename) on the
